@@ -17,6 +17,7 @@ RULES = {
     "C15.R4": "v1: slot i of packed column c holds source column 8c + order[i] at bit 4i; unpack shifts by arange(0, 32, 4), undoes the order through AWQ_REVERSE_ORDER with AWQ_ORDER[AWQ_REVERSE_ORDER[j]] == j, masks to 4 bits; same tables as the reference",
     "C15.R5": "representation: the scale/zero-point transposes of the optimised constructor are undone by the optimised dequantizer, and scale*code + (-zp*scale) == scale*(code - zp)",
     "C15.R6": "conversion back: every transformation the optimised constructor applies to a field has its inverse in qbits_tensor()",
+    "C15.R8": "AWQPackedTensor.pack/unpack delegate to the module packer/unpacker selected by the recorded packing with the recorded reorder flag, nothing re-positions the unpacked codes, and every reconstruction inside the class carries (packing, reorder) over unchanged",
     "C15.R7": "create() selects the optimised class exactly under the kernel's preconditions; moves across device types and serialization convert back; every subclass overrides qbits_tensor",
 }
 
@@ -79,6 +80,7 @@ def run(chk):
     v1(chk, awq_mi)
     representation(chk)
     selection(chk)
+    wrapper(chk, awq_mi)
     chk.assume("row-major reshape, permute, bit operators on int32/int16 values that fit (codes < 16)", "the CUDA kernels themselves are not analysed")
 
 
@@ -302,3 +304,137 @@ def selection(chk):
                 if f.get(f"type({t}) == QBitsTensor") is False and f.get(f"{t}.device.type == device.type") is False and p.end[0] == "return":
                     found = f"{t}.qbits_tensor()" in U(p.end[1])
             chk.require("C15.R7", f"{h.mi.rel}:{h.fn.lineno}", found, "QBits _to_copy converts an optimised tensor back before moving it to another device type", h.name, "device move converts back", "moving an optimised CUDA tensor to the CPU: the CPU tensor keeps the CUDA-only layout")
+
+
+# ---------------------------------------------------------------------------------------------
+# Tensor methods that move elements or re-read storage with another geometry: applied to freshly unpacked codes they need an
+# inverse on the packing side (there is none: pack() hands the matrix straight to the packer).
+POSITION_OPS = {"as_strided", "t", "T", "mT", "permute", "transpose", "reshape", "view", "flip", "roll", "movedim", "swapaxes", "swapdims",
+                "flatten", "unflatten", "index_select", "gather", "take", "narrow", "expand", "repeat", "tile", "set_", "resize_", "squeeze", "unsqueeze"}
+TRANSPARENT_OPS = {"contiguous", "clone", "detach"}
+
+
+def _peel_result(e):
+    """Strip layout-transparent wrappers; return (core, [position ops met])."""
+    moved = []
+    while True:
+        if isinstance(e, ast.Call) and isinstance(e.func, ast.Attribute) and e.func.attr in TRANSPARENT_OPS and not e.args:
+            e = e.func.value
+        elif isinstance(e, ast.Call) and isinstance(e.func, ast.Attribute) and e.func.attr in POSITION_OPS:
+            moved.append(e.func.attr)
+            e = e.func.value
+        elif isinstance(e, ast.Attribute) and e.attr in POSITION_OPS:
+            moved.append(e.attr)
+            e = e.value
+        elif isinstance(e, ast.Subscript):
+            moved.append("[...]")
+            e = e.value
+        else:
+            return e, moved
+
+
+def wrapper(chk, awq_mi):
+    repo = chk.repo
+    ci = repo.cls("AWQPackedTensor")
+    fns = {k: awq_mi.defs.get(k) for k in ("pack", "unpack", "pack_v2", "unpack_v2")}
+    m_pack, m_unpack, init = ci.own("pack"), ci.own("unpack"), ci.own("__init__")
+    site = f"{awq_mi.rel}:{ci.node.lineno}"
+    if not (m_pack and m_unpack and init) or not all(isinstance(v, ast.FunctionDef) for v in fns.values()):
+        chk.unknown("C15.R8", site, "AWQPackedTensor.pack / unpack / __init__ or the module packers not found")
+        return
+    # -- __init__ stores the three fields from the same-named parameters
+    stored = {}
+    for p in paths_of(init, inline_helpers=False):
+        for ef in p.effects:
+            if ef[0] == "store" and U(ef[1]) == "self":
+                stored[f"self.{ef[2]}"] = U(ef[3])
+    want = {"self._data": "data", "self._packing": "packing", "self._reorder": "reorder"}
+    if all(k in stored for k in want):
+        chk.require("C15.R8", f"{awq_mi.rel}:{init.lineno}", all(stored[k] == v for k, v in want.items()), f"__init__ stores {stored}", "AWQPackedTensor.__init__", "fields stored", "every packed tensor: unpack runs with another packing or reorder flag than pack")
+    else:
+        chk.unknown("C15.R8", f"{awq_mi.rel}:{init.lineno}", f"__init__: stores {stored}")
+    ctor = bind_of = None
+    new = ci.own("__new__")
+    npos = positional_params(new)[1:] if new else positional_params(init)[1:]
+
+    def ctor_args(call):
+        env = {}
+        for nm, a in zip(npos, call.args):
+            env[nm] = a
+        for k in call.keywords:
+            env[k.arg] = k.value
+        return env
+
+    # -- pack: the packer is selected by `packing`, gets `reorder`, and the result is recorded with the same pair
+    tname = positional_params(m_pack)[1]
+    n_paths = 0
+    for p in paths_of(m_pack, inline_helpers="methods"):
+        if p.end[0] != "return":
+            continue
+        e = p.end[1]
+        s = f"{awq_mi.rel}:{p.end[2]}"
+        if not (isinstance(e, ast.Call) and U(e.func) in ("AWQPackedTensor", "cls")):
+            chk.unknown("C15.R8", s, f"pack returns `{U(e)[:60]}`")
+            continue
+        f = path_facts(p)
+        v1 = f.get("packing == AWQPacking.V1")
+        if v1 is None:
+            chk.unknown("C15.R8", s, f"pack: path does not decide `packing == AWQPacking.V1` (facts {sorted(f)})")
+            continue
+        env = ctor_args(e)
+        data, moved = _peel_result(env.get("data"))
+        ok_call = False
+        detail = U(env.get("data"))[:70]
+        if isinstance(data, ast.Call) and isinstance(data.func, ast.Name) and data.func.id in fns:
+            b = bind_call(fns[data.func.id], data)
+            if v1:
+                ok_call = data.func.id == "pack" and b is not None and U(b[positional_params(fns["pack"])[0]]) == tname and U(b["reorder"]) == "reorder"
+            else:
+                ok_call = data.func.id == "pack_v2" and b is not None and U(b[positional_params(fns["pack_v2"])[0]]) == tname
+        ok_meta = U(env.get("packing")) == "packing" and U(env.get("reorder")) == "reorder"
+        n_paths += 1
+        tag = "V1" if v1 else "V2"
+        chk.require("C15.R8", s, ok_call and not moved, f"pack ({tag}): payload is `{detail}`" + (f" re-positioned by {moved}" if moved else ""), "AWQPackedTensor.pack", f"pack delegates {tag}", f"every {tag} packed tensor: the payload is not the {tag} packing of the matrix (with the requested reorder flag)")
+        chk.require("C15.R8", s, ok_meta, f"pack ({tag}): records packing=`{U(env.get('packing'))}`, reorder=`{U(env.get('reorder'))}`", "AWQPackedTensor.pack", f"pack records {tag}", f"every {tag} packed tensor: unpack is run with another packing / reorder flag than pack")
+    chk.floor("C15.R8", n_paths, 2, "AWQPackedTensor.pack paths")
+    # -- unpack: the unpacker is selected by the recorded packing and nothing re-positions its result
+    n_paths = 0
+    for p in paths_of(m_unpack, inline_helpers="methods"):
+        if p.end[0] != "return":
+            continue
+        s = f"{awq_mi.rel}:{p.end[2]}"
+        f = path_facts(p)
+        v1 = f.get("self._packing == AWQPacking.V1")
+        if v1 is None:
+            chk.unknown("C15.R8", s, f"unpack: path does not decide `self._packing == AWQPacking.V1` (facts {sorted(f)})")
+            continue
+        core, moved = _peel_result(p.end[1])
+        tag = "V1" if v1 else "V2"
+        ok_call = False
+        if isinstance(core, ast.Call) and isinstance(core.func, ast.Name) and core.func.id in fns:
+            b = bind_call(fns[core.func.id], core)
+            if v1:
+                ok_call = core.func.id == "unpack" and b is not None and U(b[positional_params(fns["unpack"])[0]]) == "self._data" and U(b["reorder"]) == "self._reorder"
+            else:
+                ok_call = core.func.id == "unpack_v2" and b is not None and U(b[positional_params(fns["unpack_v2"])[0]]) == "self._data"
+        elif not moved:
+            chk.unknown("C15.R8", s, f"unpack ({tag}) returns `{U(p.end[1])[:70]}`")
+            continue
+        n_paths += 1
+        chk.require("C15.R8", s, ok_call, f"unpack ({tag}): `{U(core)[:60]}` on the stored payload with the recorded reorder flag", "AWQPackedTensor.unpack", f"unpack delegates {tag}", f"every {tag} packed tensor: the payload is unpacked by another routine or flag than it was packed with")
+        chk.require("C15.R8", s, not moved, f"unpack ({tag}): result of the unpacker returned as is" if not moved else f"unpack ({tag}): result re-positioned by {moved} (`{U(p.end[1])[:80]}`) with no inverse on the packing side", "AWQPackedTensor.unpack", f"unpack result untouched {tag}",
+                    f"a {tag} matrix packed from a non-contiguous / differently shaped source: codes come back at other positions than they were given")
+    chk.floor("C15.R8", n_paths, 2, "AWQPackedTensor.unpack paths")
+    # -- reconstructions inside the class carry (packing, reorder) over
+    n = 0
+    for m in ci.node.body:
+        if not isinstance(m, ast.FunctionDef) or m.name in ("pack", "__tensor_unflatten__"):
+            continue
+        for c in ast.walk(m):
+            if isinstance(c, ast.Call) and isinstance(c.func, ast.Name) and c.func.id == "AWQPackedTensor":
+                env = ctor_args(c)
+                d, pk, ro = U(env.get("data")), U(env.get("packing")), U(env.get("reorder"))
+                src = pk.rsplit("._packing", 1)[0] if pk.endswith("._packing") else None
+                n += 1
+                chk.require("C15.R8", f"{awq_mi.rel}:{c.lineno}", src is not None and ro == f"{src}._reorder", f"{m.name}: rebuilt with packing=`{pk}`, reorder=`{ro}`", f"AWQPackedTensor.{m.name}", "reconstruction carries flags", "a detached / moved packed tensor is unpacked with another packing or reorder flag")
+    chk.floor("C15.R8", n, 1, "reconstruction sites")
